@@ -10,7 +10,9 @@ import (
 
 // C37: any combination of session-wide and endpoint-specific configuration
 // that session creation accepts yields, for each endpoint, a merged
-// configuration that endpoint initialisation accepts.
+// configuration that endpoint initialisation accepts.  This file holds the
+// merge-precedence and text round-trip halves; the acceptance half runs
+// against the real creation gate in harness/servicesync/c37.go.
 //
 // The configuration fields are partitioned into field groups.  The groups in
 // the *focus* are fully symbolic in all three parts (session, alpha-specific,
@@ -284,64 +286,6 @@ func verifC37Focus() *[vtGroupCount]bool {
 		focus[vtGPermissions] = true
 	}
 	return &focus
-}
-
-// verifC37Endpoint checks one endpoint's merged configuration.
-func verifC37Endpoint(session, specific *Configuration, who string) {
-	merged := MergeConfigurations(session, specific)
-	vAssert(merged != nil, who+"merged configuration exists")
-	if merged == nil {
-		return
-	}
-	verifC37Precedence(merged, session, specific, who)
-
-	// Attribute a failure of the acceptance assertions below to the one
-	// cross-part dependency that exists (file mode vs. permissions mode): the
-	// class (a condition on the inputs only) is part of the labels.
-	class := ""
-	if vAnd(specific.DefaultFileMode&0111 != 0, vOr(session.PermissionsMode == core.PermissionsMode_PermissionsModeDefault, session.PermissionsMode == core.PermissionsMode_PermissionsModePortable)) {
-		class = "[endpoint-specific executable file mode, portable session] "
-		vNote("endpoint-specific DefaultFileMode with session-level permissions mode: the endpoint-specific part is validated without the session's (effective) permissions mode, so executable bits pass there, while the merged configuration is validated in portable mode")
-	} else {
-		vNote("merged configuration of accepted parts is rejected")
-	}
-	err := merged.EnsureValid(false)
-	vAssert(err == nil, who+class+"merged configuration is accepted by endpoint validation (EnsureValid(false))")
-
-	// Own statement of the executability rule: the effective permissions
-	// mode is the merged one, the session version's default being portable.
-	portable := vOr(merged.PermissionsMode == core.PermissionsMode_PermissionsModePortable,
-		merged.PermissionsMode == core.PermissionsMode_PermissionsModeDefault)
-	if portable {
-		vCover("portable")
-		vAssert(merged.DefaultFileMode&0111 == 0, who+class+"default file mode has no executable bits in portable permissions mode")
-	}
-	vAssert(merged.DefaultFileMode&^0777 == 0, who+"default file mode has only permission bits")
-	vAssert(merged.DefaultDirectoryMode&^0777 == 0, who+"default directory mode has only permission bits")
-}
-
-func VerifC37Accepted() {
-	focus := verifC37Focus()
-	background := vChoose(3)
-	session := verifC37Part(0, focus, background)
-	alpha := verifC37Part(1, focus, background)
-	beta := verifC37Part(2, focus, background)
-
-	// Session creation (service CreationSpecification.ensureValid and
-	// Session.EnsureValid) accepts the three parts like this.
-	vAssume(session.EnsureValid(false) == nil)
-	vAssume(alpha.EnsureValid(true) == nil)
-	vAssume(beta.EnsureValid(true) == nil)
-	vCover("accepted")
-	if alpha.DefaultFileMode != 0 || beta.DefaultFileMode != 0 {
-		vCover("endpoint-file-mode")
-	}
-	if alpha.DefaultOwner != "" {
-		vCover("endpoint-owner")
-	}
-
-	verifC37Endpoint(session, alpha, "alpha: ")
-	verifC37Endpoint(session, beta, "beta: ")
 }
 
 // VerifC37Merge: precedence and concatenation for arbitrary (not necessarily
